@@ -1,13 +1,19 @@
 \* Exhaustive, thorough tier, state machine: two followers, every ISR / MinISR combination, log end
 \* <= 4, boundaries 1..4 in every order (regressions included), bounded trims, both stores; one
 \* representative read of each kind per state (the read argument space is MC_reads.cfg).
-\* Measured: 952,425 distinct states, about 29 million transitions, depth 10 (7 min at load 50).
+\* A fresh channel or a runtime loaded from a 4-row store (every checkpoint / boundary); forwarded reads
+\* with the leader's lookup answering not-found.
+\* Measured: 1,097,815 distinct states, 39.4 million transitions, depth 12, every action covered
+\* (4 workers at load 60-75: about 14 min; before loaded stores / forwarded reads: 952,425 states, 7 min at load 50).
 SPECIFICATION Spec
 CONSTANTS
   Followers = {2, 3}
   ISRs = {{1}, {1, 2}, {1, 2, 3}}
   MinISRs = {1, 2, 3}
   Stores = {"memory", "messagedb"}
+  FwdModes = {"miss"}
+  PreLeos = {0, 4}
+  PreBars = {0}
   MaxLeo = 4
   MaxB = 4
   Trims = {0, 1}
@@ -18,6 +24,7 @@ CONSTANTS
   SyncEnds = {0}
   CapZeroUnbounded = FALSE
   LastUncapped = FALSE
+  FwdDropsSyncOnce = FALSE
 VIEW View
 INVARIANTS TypeOK C10_PhysBound
 PROPERTIES C10_ReadWindow C10_Monotone C10_TrimCovered
